@@ -376,4 +376,26 @@ Section Value.
     | [] => l
     | (j, pn, cn) :: r => sum_history (sum_modify j pn cn l) r
     end.
+  (* metadynamics: energy and force of ONE hill (colvarbias_meta::calc_hills / calc_hills_force): W exp(-dist2/(2 sigma^2)) with the
+     variable's distance (set to 0 beyond exponent 23), force W * value * 0.5/sigma^2 * dist2_lgrad *)
+  Definition hill_value (sigma : T) (kind : comp_kind) (x c : cval) : option T :=
+    match comp_dist2 kind x c with
+    | Some d => let s := zero + d / (sigma * sigma) in
+                Some (if nltb O (nofZ O 23) s then zero else nexp O (nneg O (nhalf O) * s))
+    | None => None
+    end.
+  Definition hill_energy (W sigma : T) (kind : comp_kind) (x c : cval) : option T :=
+    match hill_value sigma kind x c with Some v => Some (W * v) | None => None end.
+  Definition hill_force (W sigma : T) (kind : comp_kind) (x c : cval) : option cval :=
+    match hill_value sigma kind x c, comp_lgrad kind x c with
+    | Some v, Some g => Some (cval_scale (W * v * (nhalf O / (sigma * sigma))) g)
+    | _, _ => None
+    end.
+  (* OPES: value of one kernel at x on a scalar variable (colvarbias_opes::evaluateKernel, first overload) *)
+  Definition opes_kernel (h sigma cutoff2 vac : T) (kind : comp_kind) (c x : T) : option T :=
+    match comp_dist2 kind (VS c) (VS x) with
+    | Some d => let n2 := zero + d / (sigma * sigma) in
+                Some (if nleb O cutoff2 n2 then zero else h * (nexp O (nneg O (nhalf O) * n2) - vac))
+    | None => None
+    end.
 End Value.
